@@ -100,6 +100,13 @@ def _ldetails(draw):
             d[f] = [draw(_label_value(f)) for _ in range(draw(st.integers(1, 3)))]
         else:
             d[f] = draw(_label_value(f))
+    # free-text label fields may be set to the empty string (a value: the setters take any str) - alongside at least one
+    # other field, because a details object with nothing in it is outside the domain (ASSUMPTIONS)
+    if len(d) >= 2 and draw(st.integers(0, 5)) == 0:
+        for f in ("local_name", "device_name", "instance_parent"):
+            if f in d and not isinstance(d[f], list):
+                d[f] = ""
+                break
     return d
 
 
